@@ -17,6 +17,18 @@ CLAIMS = {
             "and the stop-on-ACK/RST rule are asserted. Bounded (integer time, MAX_RETRANSMIT<=6), not a proof.",
             "SimLoop virtual time; random.uniform replaced by an explicit draw; fake token manager / message interface / datagram transport; CrossHair+z3",
             TECH_E1, "DESIGN.md 5 C03"),
+    "C14": ("From every symbolic pre-state (per remote: exchange open, retransmitted once, 0..2 queued) built through the real "
+            "send_message API, every event sequence of depth 2 (quick) / 3 (thorough) over 14 event kinds is explored on the real "
+            "MessageManager and compared step by step with a reference NSTART=1 queue model (wire log identity and order, failure "
+            "reports, one open exchange per remote, eventual drain). Bounded model-based symbolic exploration, not a proof.",
+            "SimLoop; fake token manager / message interface; 2 remotes; MAX_RETRANSMIT=1; reference model written from the property text",
+            TECH_E1, "DESIGN.md 5 C14"),
+    "C07": ("Observe values (all 2^24), arrival instants, terminator kind and position are solver variables for sequences of 3/4 "
+            "notifications fed to the real Request/ClientObservation; deliveries must equal exactly what the RFC 7641 3.4 formula "
+            "selects relative to the last delivered (V,T); termination signalled exactly once with the right class. The same through "
+            "the real TokenManager/MessageManager with notifications as datagrams (ACK/RST reactions after the end).",
+            "clock stub for protocol.time; SimLoop; fake datagram transport; pipe-level obligations emulate TokenManager's is_last rule",
+            TECH_E1, "DESIGN.md 5 C07"),
 }
 
 NOT_YET = "check under construction in this build (see DESIGN.md section 5); not claimed until its obligations are confirmed on the tree"
